@@ -97,6 +97,15 @@ def bounded(pb, interp, rng, tier):
                     v = np.asarray(q.view(np.ndarray))
                     if not np.all(v["int"] == np.rint(v["int"])) or np.any(np.abs(v["frac"]) > 0.5):
                         fail("Phase.min", "reduction.not-normalised", f"count {row[0][0]}", repr(q)[:80])
+                # flattened order (axis=None) of a 2-d arrangement
+                if len(row) >= 6:
+                    pf = Phase(np.array([c for c, f in row[:6]]).reshape(2, 3), np.array([f for c, f in row[:6]]).reshape(2, 3))
+                    ef = exact_arr(pf)
+                    ia = np.asarray(pf.argsort(axis=None)).ravel()
+                    if [ef[int(k)] for k in ia] != sorted(ef):
+                        fail("Phase.argsort", "argsort.axis-none", f"count {row[0][0]}", str(ia))
+                    if exact_arr(pf.sort(axis=None)) != sorted(ef):
+                        fail("Phase.sort", "sort.axis-none", f"count {row[0][0]}", "not sorted on the exact value")
                 # 2-d, along each axis
                 if len(row) < 6:
                     continue
